@@ -91,6 +91,9 @@ pub struct Spec {
     pub clock: ClockCfg,
     pub callers: usize,
     pub ops: Vec<Op>,
+    /// configuration: a tracing subscriber that wants every level is installed on the caller threads
+    #[serde(default)]
+    pub diag: bool,
 }
 
 pub struct C13;
@@ -773,7 +776,7 @@ struct PhaseOut {
     polls: u64,
 }
 
-fn run_phase(ctx: &Arc<seam::RunCtx>, e_h: u64, subjects: &Arc<Vec<Subject>>, callers: usize, ops: &[Op], rotate: usize) -> PhaseOut {
+fn run_phase(ctx: &Arc<seam::RunCtx>, e_h: u64, subjects: &Arc<Vec<Subject>>, callers: usize, ops: &[Op], rotate: usize, diag: bool) -> PhaseOut {
     ctx.rekey_entropy(e_h);
     let k = callers.clamp(1, 4);
     let mut po = PhaseOut { history: History { recs: vec![] }, log: vec![], violation: None, discard: None, harness: None, polls: 0 };
@@ -790,11 +793,13 @@ fn run_phase(ctx: &Arc<seam::RunCtx>, e_h: u64, subjects: &Arc<Vec<Subject>>, ca
             let _a = seam::attach(&ctx_c);
             while let Ok(Some((kind, m, aux))) = rx.recv() {
                 let r = std::panic::catch_unwind(std::panic::AssertUnwindSafe(|| {
-                    if kind == OpKind::CloneEdit {
-                        exec_clone_edit(&subs[m], &subs[(aux as usize / 8) % subs.len()], aux % 8)
-                    } else {
-                        exec_op(kind, &subs[m])
-                    }
+                    with_diag(diag, || {
+                        if kind == OpKind::CloneEdit {
+                            exec_clone_edit(&subs[m], &subs[(aux as usize / 8) % subs.len()], aux % 8)
+                        } else {
+                            exec_op(kind, &subs[m])
+                        }
+                    })
                 }))
                 .unwrap_or_else(|p| {
                     OpResult::Panicked(p.downcast_ref::<String>().cloned().or(p.downcast_ref::<&str>().map(|s| s.to_string())).unwrap_or("panic".into()))
@@ -910,6 +915,7 @@ impl Engine for C13 {
             clock,
             callers,
             ops,
+            diag: w.chance(1, 3),
         }
     }
 
@@ -1013,7 +1019,7 @@ impl Engine for C13 {
             let subjects = Arc::new(subjects);
 
             // ---- operations phase A
-            let a = run_phase(&ctx2, spec2.e_h, &subjects, spec2.callers, &spec2.ops, 0);
+            let a = run_phase(&ctx2, spec2.e_h, &subjects, spec2.callers, &spec2.ops, 0, spec2.diag);
             for l in &a.log {
                 out.log.push(format!("A {l}"));
             }
@@ -1036,7 +1042,7 @@ impl Engine for C13 {
             for i in (1..ops_b.len()).rev() {
                 ops_b.swap(i, pr.below(i + 1));
             }
-            let b = run_phase(&ctx2, spec2.paired_e_h, &subjects, spec2.callers, &ops_b, 1 + pr.below(3));
+            let b = run_phase(&ctx2, spec2.paired_e_h, &subjects, spec2.callers, &ops_b, 1 + pr.below(3), spec2.diag);
             out.count("paired_runs", 1);
             out.count("exec.polls", b.polls);
             out.log.push(format!("B history={}", hex(fnv_str(&b.log.join("\n")))));
@@ -1107,6 +1113,9 @@ impl Engine for C13 {
         let shape: Vec<String> = spec.ops.iter().map(|o| format!("{}{:?}{}", o.caller, o.kind, o.subject)).collect();
         out.shape_digest = fnv_str(&format!("{}|{}", spec.callers, shape.join(" ")));
         out.count(&format!("callers.{}", spec.callers.clamp(1, 4)), 1);
+        if spec.diag {
+            out.count("config.diagnostics_subscriber_installed", 1);
+        }
         (out, resolved)
     }
 
@@ -1135,6 +1144,11 @@ impl Engine for C13 {
         if spec.callers > 1 {
             let mut s = spec.clone();
             s.callers = 1;
+            v.push(s);
+        }
+        if spec.diag {
+            let mut s = spec.clone();
+            s.diag = false;
             v.push(s);
         }
         let plain = ClockCfg::plain();
